@@ -1082,7 +1082,108 @@ def run_helper_case(b, rng, base, part, cid):
 
 
 # =================================================================================== orchestration
+# ======================================================================================= a bus that starts services through a helper
+# With <servicehelper> configured (system-bus style) the bus itself refuses a service file that has no User= line, before
+# anything is spawned.  Every requester must get exactly ONE error for it - also a second requester arriving inside the start
+# timeout, and also once the start timeout has passed (nothing may be left pending behind the refusal).
+
+HB_TIMEOUT_MS = 1200
+
+
+def run_helper_bus_case(b, base, rng, part, cid):
+    svcdir = os.path.join(base, "services")
+    os.makedirs(svcdir, exist_ok=True)
+    name = b"com.example.NoUser%d" % rng.randint(0, 9)
+    lines = ["[D-BUS Service]", "Name=%s" % name.decode(), "Exec=/bin/true"]
+    if rng.random() < 0.3:
+        lines.append("SystemdService=dbus-x.service")
+    with open(os.path.join(svcdir, name.decode() + ".service"), "w") as fh:
+        fh.write("\n".join(lines) + "\n")
+    extra = "  <servicehelper>%s</servicehelper>" % b.launch_helper
+    cfg = busproc.make_config("@SOCK@", servicedirs=[svcdir], bus_type="system", limits={"service_start_timeout": HB_TIMEOUT_MS}, extra=extra)
+    d = busproc.Daemon(b, os.path.join(base, "run"), cfg, name="hb")
+    wit = {"part": "helper-bus", "case": cid, "config": cfg, "steps": []}
+    cl = []
+    try:
+        if not d.started():
+            part.inconclusive.append("helper-bus case: daemon did not start: " + d.stderr_text()[-300:])
+            return
+        n = rng.randint(2, 4)
+        cs = [client.connect(d.sock) for _ in range(n)]
+        cl += cs
+        reqs = []     # (client, serial, kind)
+        t0 = time.monotonic()
+        for i, c in enumerate(cs):
+            kind = rng.choice(["call", "call", "start", "signal"])
+            if kind == "start":
+                serial = c.bus_call_async(b"StartServiceByName", b"su", [name, 0])
+            elif kind == "call":
+                serial = c.call_async(name, b"/x", b"com.example.X", b"M", b"s", [b"x"])
+            else:
+                serial = c.signal(b"/x", b"com.example.X", b"S", b"s", [b"x"], dest=name)
+            reqs.append((c, serial, kind))
+            wit["steps"].append("%s from client %d serial %d" % (kind, i, serial))
+            c.barrier()
+            if rng.random() < 0.5:
+                time.sleep(rng.choice([0.0, 0.1, HB_TIMEOUT_MS / 2000.0]))
+        # let the start timeout pass (counted from the FIRST request), then one more round-trip each
+        rest = HB_TIMEOUT_MS / 1000.0 + 0.6 - (time.monotonic() - t0)
+        if rest > 0:
+            time.sleep(rest)
+        for c in cs:
+            c.barrier()
+            c.barrier()
+        part.evaluations += 1
+        part.count("helper-bus:cases")
+        for c, serial, kind in reqs:
+            errs = [r for r in c.log if r.msg.type == 3 and r.msg.known().get(5) == serial and r.msg.known().get(7) == b"org.freedesktop.DBus"]
+            names = [r.msg.known().get(4).decode() for r in errs]
+            part.count("helper-bus:requests:" + kind)
+            part.sig("helper-bus", kind, tuple(names))
+            want = 0 if kind == "signal" else 1
+            if kind == "signal" and len(errs) <= 1:
+                part.count("helper-bus:signal-errors:%d(not judged)" % len(errs))
+                continue
+            if len(errs) != want:
+                part.violation("%s:helper-bus:%d-errors-for-one-%s:service-file-without-user" % (PROP, len(errs), kind),
+                               "a %s for a service whose file has no User= line (bus with <servicehelper>) was answered with %d errors: %r"
+                               % (kind, len(errs), names), dict(wit))
+            elif "TimedOut" in names[0] or "Timeout" in names[0]:
+                part.violation("%s:helper-bus:answered-only-at-the-start-timeout:service-file-without-user" % PROP,
+                               "a %s for a service the bus cannot start (no User= line) was answered with %s: it waited for a start that was "
+                               "never attempted" % (kind, names[0]), dict(wit))
+            else:
+                part.count("helper-bus:one-error:" + names[0].rsplit(".", 1)[-1])
+    except (client.Timeout, client.Closed) as e:
+        part.inconclusive.append("helper-bus case %d aborted: %s" % (cid, type(e).__name__))
+    finally:
+        for c in cl:
+            try:
+                c.close()
+            except Exception:
+                pass
+        d.stop()
+        for cls, site, text in d.problems():
+            part.violation("%s:%s:%s" % (PROP, cls, site), "daemon reported %s (helper-bus part)" % cls, dict(wit, stderr=text[-2000:]))
+        shutil.rmtree(base, ignore_errors=True)
+
+
 def _worker(args):
+    if args[0] == "helper-bus":
+        _, seed, shard, count = args
+        part = report.Part()
+        b = build.build("asan", quiet=True)
+        rundir = tempfile.mkdtemp(prefix="verif-c19h-")
+        try:
+            for i in range(count):
+                run_helper_bus_case(b, os.path.join(rundir, "c%d" % i), gen.rng_for(seed, PROP, "helper-bus", shard, i), part, shard * 1000 + i)
+        finally:
+            shutil.rmtree(rundir, ignore_errors=True)
+        return part
+    return _worker_main(args)
+
+
+def _worker_main(args):
     kind, seed, shard, count = args
     part = report.Part()
     b = build.build("asan", quiet=True)
@@ -1146,6 +1247,9 @@ def run(tier, seed, replay=None, scale=1.0):
     nt = int((8 if tier == "quick" else 200) * scale)
     for i in range(min(8, nt)):
         shards.append(("trickle", seed, i, max(1, nt // 8)))
+    nhb = int((32 if tier == "quick" else 800) * scale)
+    for i in range(min(8, max(1, nhb))):
+        shards.append(("helper-bus", seed, i, max(1, nhb // 8)))
     for part in report.run_sharded(_worker, shards):
         r.merge(part)
         r.extra["trickle_first_answer_excess_max_s"] = round(max(r.extra.get("trickle_first_answer_excess_max_s", 0.0),
@@ -1167,6 +1271,10 @@ def run(tier, seed, replay=None, scale=1.0):
     if scale >= 1:
         r.require("trickle-cases", 6)
     r.require("process-starts", 5)
+    if scale >= 1:
+        r.require("helper-bus:cases", 20)
+        r.require("helper-bus:requests:call", 15)
+        r.require("helper-bus:requests:start", 5)
     r.require("helper-invocations", 20)
     r.require("bus-shutdowns-scraped", 3)
     r.assumptions = [
